@@ -374,3 +374,50 @@ def _diverges_with(body, rets):
         seq = [peel(s.get("e") or {}) for s in b.get("stmts", [])] + ([peel(b["tail"])] if b.get("tail") is not None else [])
         return bool(seq) and seq[-1] in rets
     return b in rets
+
+
+# ----------------------------------------------------------------------------- C05: no re-labelling
+def rule_prov_relabel(crate):
+    """Inside the simplification functions a quantity may change its unit only through convert_to (or by
+    multiplying the value with the conversion factor); `Quantity::new(<unchanged value>, <other unit>)` would
+    keep the number and swap the label."""
+    out = RuleOut("PROV", "simplification changes a unit only through a value-converting step")
+    n = 0
+    for fname in ("quantity::Quantity::full_simplify", "quantity::Quantity::full_simplify_with_registry"):
+        fn = crate.find_fn(fname)
+        f = crate.file_of(fn)
+        short = fname.split("::")[-1]
+        inits = let_inits(fn)
+        idx = 0
+        for c in walk(fn["body"]):
+            is_ctor = c.get("k") == "Call" and (callee(c) or "").endswith(("Quantity::new", "Quantity::new_f64"))
+            is_lit = c.get("k") == "Struct" and c.get("adt") == Q
+            if not (is_ctor or is_lit):
+                continue
+            n += 1
+            cf, cl = crate.loc(fn, c)
+            key = "%s:Quantity::new#%d" % (short, idx)
+            idx += 1
+            val = c["args"][0] if is_ctor else next((e for nm, e in c["fields"] if nm == "value"), None)
+
+            def scaled(e, depth=0):
+                """does the value expression pass through a multiplication/division (a conversion factor)?"""
+                for x in walk(e):
+                    if x.get("k") == "Binary" and x.get("op") in ("*", "/"):
+                        return True
+                    if x.get("k") == "Path" and x["res"].get("r") == "local" and x["res"]["id"] in inits and depth < 4:
+                        if scaled(inits[x["res"]["id"]], depth + 1):
+                            return True
+                return False
+
+            takes_value = val is not None and any(x.get("k") == "Field" and x.get("name") == "value" for x in walk(val))
+            if val is not None and takes_value and not scaled(val):
+                out.violation(key, cf, cl, "%s builds a Quantity from the unchanged `.value` of another quantity with a new unit: the number is kept and only the unit label changes" % short)
+            else:
+                out.ok(key, cf, cl, "the value passes through a multiplication/division with the conversion factor")
+        # every other unit change goes through convert_to
+        convs = [x for x in walk(fn["body"]) if x.get("k") == "MethodCall" and (callee(x) or "").endswith("Quantity::convert_to")]
+        out.ok("%s:convert_to-sites" % short, f, fn["line"], "%d unit changes go through Quantity::convert_to" % len(convs)) if convs else out.violation("%s:convert_to-sites" % short, f, fn["line"], "no convert_to call left in %s" % short)
+    out.analysed = {"constructor_sites": n}
+    out.floor("constructor_sites", n, 1)
+    return out
